@@ -17,7 +17,7 @@ Definition bol_ok (ml : bool) (p : option char) : bool :=
 Definition eol_ok (ml : bool) (rest : str) : bool :=
   match rest with [] => true | x :: t => (x =? 10) && (ml || match t with [] => true | _ => false end) end.
 Definition wordb_ok (neg : bool) (p : option char) (rest : str) : bool :=
-  xorb neg (xorb (is_word p) (is_word (hd_error rest))).
+  (match p, rest with None, [] => false | _, _ => true end) && xorb neg (xorb (is_word p) (is_word (hd_error rest))).
 Definition max_ok (mxx : option N) (mn total : N) : Prop :=
   match mxx with Some x => total <= N.max x mn | None => True end.
 
@@ -327,8 +327,8 @@ Proof.
       destruct (st_rest s) as [|x t]; [exact Hk|]. rewrite Hb. exact Hk.
   - (* word boundary *) split.
     + intros k i p rest c res H. cbn [exec] in H. exists (mkSt i p rest c). split; [split; [reflexivity|]|].
-      * cbn. unfold wordb_ok. destruct (xorb neg _); [reflexivity|discriminate].
-      * destruct (xorb neg _); [exact H|discriminate].
+      * cbn. unfold wordb_ok. destruct (_ && xorb neg _); [reflexivity|discriminate].
+      * destruct (_ && xorb neg _); [exact H|discriminate].
     + intros k s s' H Hk. cbn [mx] in H. destruct H as [-> Hb]. cbn [exec]. unfold wordb_ok in Hb. rewrite Hb. exact Hk.
 Qed.
 
